@@ -13,7 +13,7 @@ from __future__ import annotations
 import ast
 from typing import Dict, List, Optional, Tuple
 
-from ..model import Program, AnalysisError, FuncInfo, walk_local, dotted
+from ..model import Program, AnalysisError, FuncInfo, walk_local, dotted, parents_of
 from ..report import RuleResult, guard
 from .usertruth import user_truth
 from ..astutil import src, site, calls_in, call_name, is_self_attr, is_super_call, kwarg, const_value
@@ -691,5 +691,47 @@ def pd_exact(prog: Program) -> RuleResult:
     return r
 
 
+def pd_role_taker(prog: Program) -> RuleResult:
+    """'On the role taker when the super-property lives there': which object that is, is said by the diagram - the edge of kind HasRoleTaker, made
+    for the field the class names in Role[...].  A class can have other required, single-valued references (a department's firm, a job's
+    client); looking the role taker up by the *shape* of the field finds those: facts are inferred onto objects that take no role, and the
+    facts of the real role taker are missing."""
+    r = RuleResult("PD-ROLE-TAKER", "the role taker of a class is found by the kind of the edge", floor=1)
+    cd = prog.cls("class_diagram.ClassDiagram")
+    f = cd.methods.get("get_role_taker_associations_of_cls")
+    if f is None:
+        raise AnalysisError("PD-ROLE-TAKER: ClassDiagram.get_role_taker_associations_of_cls vanished")
+    hrt = prog.cls("class_diagram.HasRoleTaker")
+    kinds = {c.name for c in prog.subclasses(hrt.qual, strict=False)} | {hrt.name}
+    par = parents_of(f.node)
+    rets = [x for x in walk_local(f.node) if isinstance(x, ast.Return) and x.value is not None and not (isinstance(x.value, ast.Constant) and x.value.value is None)]
+    if not rets:
+        raise AnalysisError("PD-ROLE-TAKER: the lookup returns nothing")
+    bad = None
+    for x in rets:
+        cur, ok = x, False
+        while cur in par:
+            up = par[cur]
+            tests = [up.test] if isinstance(up, ast.If) and cur in up.body else list(up.ifs) if isinstance(up, ast.comprehension) else []
+            for t in tests:
+                for c_ in [y for y in ast.walk(t) if isinstance(y, ast.Call) and isinstance(y.func, ast.Name) and y.func.id == "isinstance" and len(y.args) == 2]:
+                    names = [src(e) for e in (c_.args[1].elts if isinstance(c_.args[1], ast.Tuple) else [c_.args[1]])]
+                    if names and all(nm in kinds for nm in names):
+                        ok = True
+            cur = up
+        # a comprehension result: next(a for a in ... if isinstance(a, HasRoleTaker) ...)
+        for comp in [y for y in ast.walk(x.value) if isinstance(y, ast.comprehension)]:
+            for t in comp.ifs:
+                for c_ in [y for y in ast.walk(t) if isinstance(y, ast.Call) and isinstance(y.func, ast.Name) and y.func.id == "isinstance" and len(y.args) == 2]:
+                    if src(c_.args[1]) in kinds:
+                        ok = True
+        if not ok:
+            bad = bad or x
+    r.check(bad is None, f"{f.short}#by-edge-kind", site(f, bad) if bad is not None else site(f), src(bad)[:60] if bad is not None else f"{len(rets)} return(s)", "an association is returned only when it is a HasRoleTaker edge",
+            f"`{src(bad)[:50] if bad is not None else ''}` hands out an association that was not established to be a HasRoleTaker edge: any required single-valued reference of the class counts as its "
+            "role taker - inferred facts land on that object, and those of the real role taker are missing")
+    return r
+
+
 def run(prog: Program, tier: str) -> List[RuleResult]:
-    return [guard(lambda: _rel_edges(prog)), guard(lambda: _sg_purge(prog)), guard(lambda: pd_field(prog)), guard(lambda: pd_first_assign(prog)), guard(lambda: pd_closure(prog)), guard(lambda: pd_owner(prog)), guard(lambda: pd_supers(prog)), guard(lambda: _mc_eq(prog)), guard(lambda: pd_replace(prog)), guard(lambda: pd_init(prog)), guard(lambda: user_truth(prog, ["property_descriptor.property_descriptor", "property_descriptor.monitored_container", "property_descriptor.property_descriptor_relation"], 2)), guard(lambda: pd_exact(prog))]
+    return [guard(lambda: _rel_edges(prog)), guard(lambda: _sg_purge(prog)), guard(lambda: pd_field(prog)), guard(lambda: pd_first_assign(prog)), guard(lambda: pd_closure(prog)), guard(lambda: pd_owner(prog)), guard(lambda: pd_supers(prog)), guard(lambda: _mc_eq(prog)), guard(lambda: pd_replace(prog)), guard(lambda: pd_init(prog)), guard(lambda: user_truth(prog, ["property_descriptor.property_descriptor", "property_descriptor.monitored_container", "property_descriptor.property_descriptor_relation"], 2)), guard(lambda: pd_exact(prog)), guard(lambda: pd_role_taker(prog))]
